@@ -67,12 +67,29 @@ type selWorld struct {
 	va    *types.Var
 	vp    *types.Var
 	fr    *types.Func
+	// delay-loaded realisation: the types have no underlying type until Config.LoadNamed runs their loader
+	lazy    bool
+	loaders map[*types.Named]func()
+}
+
+func (w *selWorld) loadAll() {
+	for _, f := range w.loaders {
+		f()
+	}
+	w.loaders = map[*types.Named]func(){}
 }
 
 func newSelWorld() *selWorld {
 	fset, imp := sharedImporter()
 	w := &selWorld{rec: &selRecorder{}}
-	w.pkg = gogen.NewPackage("", "p", &gogen.Config{Fset: fset, Importer: imp, Recorder: w.rec, HandleErr: func(error) {}})
+	w.loaders = map[*types.Named]func(){}
+	w.pkg = gogen.NewPackage("", "p", &gogen.Config{Fset: fset, Importer: imp, Recorder: w.rec, HandleErr: func(error) {},
+		LoadNamed: func(at *gogen.Package, typ *types.Named) {
+			if f := w.loaders[typ]; f != nil {
+				delete(w.loaders, typ)
+				f()
+			}
+		}})
 	w.pkg.NewFunc(nil, "host", nil, nil, false).BodyStart(w.pkg)
 	w.cb = w.pkg.CB()
 	w.pkgQ = types.NewPackage("q", "q")
@@ -80,7 +97,11 @@ func newSelWorld() *selWorld {
 }
 
 // realise builds the graph with go/types objects (R and the types not in q live in the builder's package).
-func (w *selWorld) realise(c selCase) {
+// With shared, types of one package whose field lists are equal share one *types.Struct, as type B A does (B gets A's
+// struct, not A's methods): lookups must not confuse the two types.
+func (w *selWorld) realise(c selCase, shared ...bool) {
+	share := len(shared) > 0 && shared[0]
+	structOf := map[string]*types.Struct{}
 	inQ := map[string]bool{}
 	for _, t := range c.Q {
 		inQ[t] = true
@@ -115,10 +136,45 @@ func (w *selWorld) realise(c selCase) {
 				fs = append(fs, types.NewField(token.NoPos, pkgOf(t), f.Name, ft, false))
 			}
 		}
-		w.named[t].SetUnderlying(types.NewStruct(fs, nil))
+		key, _ := json.Marshal(d.Fields)
+		k := pkgOf(t).Path() + "|" + string(key)
+		if st := structOf[k]; share && st != nil {
+			w.named[t].SetUnderlying(st)
+			continue
+		}
+		st := types.NewStruct(fs, nil)
+		structOf[k] = st
+		if w.lazy {
+			continue // see below: underlying type and method arrive together, when the type is loaded
+		}
+		w.named[t].SetUnderlying(st)
+	}
+	if w.lazy {
+		w.loaders = map[*types.Named]func(){}
 	}
 	for _, t := range names {
 		d := c.G[t]
+		if w.lazy {
+			t, d, nt := t, d, w.named[t]
+			key, _ := json.Marshal(d.Fields)
+			st := structOf[pkgOf(t).Path()+"|"+string(key)]
+			w.loaders[nt] = func() {
+				nt.SetUnderlying(st)
+				if d.Meth == "none" || d.Meth == "" {
+					return
+				}
+				var rt types.Type = nt
+				if d.Meth == "ptr" {
+					rt = types.NewPointer(rt)
+				}
+				sig := types.NewSignatureType(types.NewVar(token.NoPos, pkgOf(t), "", rt), nil, nil, nil,
+					types.NewTuple(types.NewVar(token.NoPos, pkgOf(t), "", types.Typ[types.Int])), false)
+				fn := types.NewFunc(token.NoPos, pkgOf(t), "x", sig)
+				nt.AddMethod(fn)
+				w.meths[t] = fn
+			}
+			continue
+		}
 		if d.Meth == "none" || d.Meth == "" {
 			continue
 		}
@@ -255,8 +311,75 @@ func runC08(tier, replay string) {
 	run := ev.Start("C08", tier, "model_checking")
 	var lookups int64
 	var mu sync.Mutex
+	var checkCaseV func(w *selWorld, c selCase, shared bool)
+	var checkLazy func(w *selWorld, c selCase, only map[string]bool)
 	checkCase := func(w *selWorld, c selCase) {
-		w.realise(c)
+		checkCaseV(w, c, false)
+		checkLazy(w, c, nil)
+		// two types of one package with equal field lists: once more with the two sharing one struct (type B A)
+		inQ := map[string]bool{}
+		for _, t := range c.Q {
+			inQ[t] = true
+		}
+		seen := map[string]bool{}
+		for _, t := range []string{"R", "A", "B", "C"} {
+			key, _ := json.Marshal(c.G[t].Fields)
+			k := fmt.Sprint(inQ[t]) + "|" + string(key)
+			if seen[k] {
+				checkCaseV(w, c, true)
+				break
+			}
+			seen[k] = true
+		}
+	}
+	// delay-loaded types: every MemberVal lookup is the first use of freshly declared, not yet loaded types
+	checkLazy = func(w *selWorld, c selCase, only map[string]bool) {
+		sels := []string{}
+		for s := range c.Res {
+			sels = append(sels, s)
+		}
+		sort.Strings(sels)
+		for _, sel := range sels {
+			for _, form := range []string{"v", "a", "p"} {
+				if only != nil && !only[sel+"/"+form] {
+					continue
+				}
+				s := c.Res[sel][form]
+				w.lazy = true
+				w.realise(c)
+				w.lazy = false
+				g := w.member(form, sel, false)
+				w.loadAll()
+				want := w.objectOf(c, s)
+				expK := s.K
+				if expK == "none" || expK == "ambiguous" || expK == "needaddr" {
+					expK = "rejected"
+				}
+				mu.Lock()
+				lookups++
+				mu.Unlock()
+				run.Eval(fmt.Sprintf("lazy/%s/%s/%v", s.K, form, s.Ind) + fmt.Sprint(len(s.Path)))
+				bad := ""
+				switch {
+				case g.kind != expK:
+					bad = fmt.Sprintf("MemberVal/%s: Go=%s builder=%s", form, s.K, g.kind)
+				case (g.kind == "field" || g.kind == "method") && g.obj != want:
+					bad = fmt.Sprintf("MemberVal/%s: Go=%s builder=%s-but-wrong-object(delay-loaded)", form, s.K, g.kind)
+				}
+				if bad != "" {
+					run.Fail(bad, fmt.Sprintf("selector %s on %s operand of type R: Go (Select.tla = go/types) says %s%s, the builder says %s %v %s; graph: %s [types delay-loaded through Config.LoadNamed; the selector is their first use]",
+						sel, map[string]string{"v": "a non-addressable value", "a": "an addressable", "p": "a pointer"}[form], s.K, ownerStr(s), g.kind, g.obj, g.msg, selDescribe(c)),
+						map[string]any{"case": c, "sel": sel, "form": form, "lazy": true})
+				}
+			}
+		}
+	}
+	checkCaseV = func(w *selWorld, c selCase, shared bool) {
+		w.realise(c, shared)
+		suffix := "" // (description only: the finding keys are those of the plain realisation)
+		if shared {
+			suffix = " [realised with the types of equal field lists sharing one struct]"
+		}
 		sels := []string{}
 		for s := range c.Res {
 			sels = append(sels, s)
@@ -330,8 +453,8 @@ func runC08(tier, replay string) {
 						}
 					}
 					if bad != "" {
-						run.Fail(bad, fmt.Sprintf("method expression (%s).%s: Go (Select.tla = go/types) says %s%s, the builder says %s type %v %s; graph: %s", T, sel, s.K, ownerStr(s), g.kind, g.typ, g.msg, selDescribe(c)),
-							map[string]any{"case": c, "sel": sel, "form": mform})
+						run.Fail(bad, fmt.Sprintf("method expression (%s).%s: Go (Select.tla = go/types) says %s%s, the builder says %s type %v %s; graph: %s%s", T, sel, s.K, ownerStr(s), g.kind, g.typ, g.msg, selDescribe(c), suffix),
+							map[string]any{"case": c, "sel": sel, "form": mform, "shared": shared})
 					}
 				}
 				// ---- G
@@ -380,9 +503,9 @@ func runC08(tier, replay string) {
 						}
 					}
 					if bad != "" {
-						run.Fail(bad, fmt.Sprintf("selector %s on %s operand of type R: Go (Select.tla = go/types) says %s%s, the builder says %s %v %s; graph: %s",
-							sel, map[string]string{"v": "a non-addressable value", "a": "an addressable", "p": "a pointer"}[form], s.K, ownerStr(s), g.kind, g.obj, g.msg, selDescribe(c)),
-							map[string]any{"case": c, "sel": sel, "form": form, "ref": ref})
+						run.Fail(bad, fmt.Sprintf("selector %s on %s operand of type R: Go (Select.tla = go/types) says %s%s, the builder says %s %v %s; graph: %s%s",
+							sel, map[string]string{"v": "a non-addressable value", "a": "an addressable", "p": "a pointer"}[form], s.K, ownerStr(s), g.kind, g.obj, g.msg, selDescribe(c), suffix),
+							map[string]any{"case": c, "sel": sel, "form": form, "ref": ref, "shared": shared})
 					}
 				}
 			}
@@ -390,12 +513,20 @@ func runC08(tier, replay string) {
 	}
 	if replay != "" {
 		var r struct {
-			Case selCase `json:"case"`
+			Case   selCase `json:"case"`
+			Shared bool    `json:"shared"`
+			Lazy   bool    `json:"lazy"`
+			Sel    string  `json:"sel"`
+			Form   string  `json:"form"`
 		}
 		if err := loadReplay(replay, &r); err != nil {
 			run.Infra(err)
 		}
-		checkCase(newSelWorld(), r.Case)
+		if r.Lazy {
+			checkLazy(newSelWorld(), r.Case, map[string]bool{r.Sel + "/" + r.Form: true})
+		} else {
+			checkCaseV(newSelWorld(), r.Case, r.Shared)
+		}
 		run.Eval("x")
 		run.Set("states", 1)
 		run.Set("transitions", 1)
